@@ -12,6 +12,7 @@ from ..tables import enum_switches, switch_arms, switch_edges, guard_context
 from .compiler_common import PX, SINK, PUSH, cg, may_push, must_push, err_unit_sites
 
 LEVEL = 'other'
+TECHNIQUE = 'static analysis: interprocedural no-silent-failure classification over the call graph (must-push fixpoint, gates, flags and counters), case evaluation of generate() by abstract interpretation (build/codegen outcomes), typestate of the progress flag, slicing-bound and span-arithmetic provenance'
 CLAUSE = ('every path on which App::build (hence `pavexc generate`) reports failure has first pushed an error diagnostic or passed an '
           'error gate, transitively through every Result<_, ()> helper; the CLI writes files only on the Ok arm of build()/codegen() and '
           'returns FAILURE on the Err arm; the error gate counts diagnostics without a severity as errors; lib.rs is the last fallible '
